@@ -144,17 +144,29 @@ pub fn run(tier: &str, seed: u64) -> Report {
     // type sides that do not resolve at all (a bare specifier): pruning removes those as well
     if wi % 3 == 1 {
       let specs = w.specs.clone();
-      for (i, r) in w.resp.iter_mut().enumerate() {
-        if let Resp::Module { items, final_spec, .. } = r {
+      let mut added: Vec<(usize, Item)> = vec![];
+      for (i, r) in w.resp.iter().enumerate() {
+        if let Resp::Module { final_spec, .. } = r {
           if *final_spec != i {
             continue;
           }
           let ext = ext_of(&specs[i]);
           if is_typed_ext(&ext) && wr.chance(1, 2) {
-            items.push(Item { form: Form::ImportType, text: "not-resolvable-types".into() });
+            added.push((i, Item { form: Form::ImportType, text: "not-resolvable-types".into() }));
           } else if is_js_like_ext(&ext) && wr.chance(1, 3) {
             if let Some(t) = specs.iter().find(|t| is_js_like_ext(&ext_of(t)) && **t != specs[i]) {
-              items.push(Item { form: Form::TsTypes("not-resolvable-pragma".into()), text: t.as_str().to_string() });
+              added.push((i, Item { form: Form::TsTypes("not-resolvable-pragma".into()), text: t.as_str().to_string() }));
+            }
+          }
+        }
+      }
+      // every response that answers with module i's specifier carries module i's text (a consistent
+      // loader), so the item goes into each of them
+      for (i, it) in added {
+        for r in w.resp.iter_mut() {
+          if let Resp::Module { items, final_spec, .. } = r {
+            if *final_spec == i {
+              items.push(it.clone());
             }
           }
         }
@@ -174,6 +186,13 @@ pub fn run(tier: &str, seed: u64) -> Report {
     let type_targets = type_edge_targets(&full);
     let mut pruned = full.clone();
     pruned.prune_types();
+    if std::env::var("DGH_C17_WORLD").ok().and_then(|s| s.parse::<usize>().ok()) == Some(wi) {
+      let mut wc = w.clone();
+      wc.kind = GraphKind::CodeOnly;
+      let lc = ScriptedLoader::new(&wc);
+      let code = try_build_world(&wc, &lc).ok();
+      eprintln!("FULL {}\nPRUNED {}\nCODE {}", serde_json::to_string(&full).unwrap(), serde_json::to_string(&pruned).unwrap(), code.map(|c| serde_json::to_string(&c).unwrap()).unwrap_or_default());
+    }
     let mut shown = show_slots(&mut ctx, &pruned);
     shown.extend(show_redirects(&mut ctx, &pruned));
     batch.push(req, shown.join(" "), false);
